@@ -1,6 +1,7 @@
 // one file per component; `dispatch` routes a protocol op to it
 pub mod base64;
 pub mod serve;
+pub mod parsers;
 pub mod response;
 pub mod multipart;
 pub mod query;
@@ -23,6 +24,7 @@ pub fn dispatch(op: &str, f: &[String]) -> String {
     if let Some(r) = query::dispatch(op, f) { return r; }
     if let Some(r) = multipart::dispatch(op, f) { return r; }
     if let Some(r) = response::dispatch(op, f) { return r; }
+    if let Some(r) = parsers::dispatch(op, f) { return r; }
     "bad-op".to_string()
 }
 
